@@ -169,7 +169,9 @@ impl Bytes {
     }
 
     pub fn to_formal_string(&self) -> String {
-        pybytes_repr(&self._b, true, false)
+        // The reader (consume_quoted) treats a backslash as an escape for
+        // the next byte, so backslashes must be written escaped as well.
+        pybytes_repr(&self._b, true, true)
     }
 
     pub fn pybytes(&self) -> String {
